@@ -1045,12 +1045,18 @@ func (o *Int) BinaryOp(op token.Token, rhs Object) (Object, error) {
 			}
 			return &Int{Value: r}, nil
 		case token.Quo:
+			if rhs.Value == 0 {
+				return nil, ErrDivisionByZero
+			}
 			r := o.Value / rhs.Value
 			if r == o.Value {
 				return o, nil
 			}
 			return &Int{Value: r}, nil
 		case token.Rem:
+			if rhs.Value == 0 {
+				return nil, ErrDivisionByZero
+			}
 			r := o.Value % rhs.Value
 			if r == o.Value {
 				return o, nil
